@@ -312,6 +312,18 @@ int main(int argc, char **argv)
             std::string chain(pad, 'k'); for(int k = 0; k < pad; k += 5) chain[k] = (char)('a' + (k / 5) % 26);
             run_tree(level({chain + "/"}, {level({"x", "v#2", "t#2/"}, {level({"y:i"}, {})})}), "longname|pad" + std::to_string(pad));
         }
+        // tables of 5..10 short and long literal names (mixer-like: names that differ late next to one- and two-letter names), at the root and
+        // below an enumerated sub-tree: whatever lookup structure the library builds for them, every reported address must reach its port
+        {
+            static const char *MX[] = {"vol1", "vol2", "vol3", "vol4", "pan1", "l", "r", "on", "fm", "x"};
+            for(uint32_t m = 0; m < 1024; ++m, ++top) {
+                if(__builtin_popcount(m) < 5 || !vp::mine(top)) continue;
+                std::vector<std::string> names; for(int i = 0; i < 10; ++i) if(m & (1u << i)) names.push_back(MX[i]);
+                run_tree(level(names, {}), "mixer|m" + std::to_string(m));
+                if(m % 7 == 0) run_tree(level({"ch#2/", "master"}, {level(names, {})}), "mixer|sub|m" + std::to_string(m));
+            }
+        }
+        vp::bound("mixer_tables", "all subsets of 5..10 of {vol1 vol2 vol3 vol4 pan1 l r on fm x} as one table (every 7th also below ch#2/)");
         vp::bound("large_static_trees", "leaf bundles q#N, m#N/b::i, kbd/key#N/velocity and sub-tree bundles t#N/, s/w#N::i for every N=1..130; a sub-tree name of every length 1..900 above {x, v#2, t#2/y:i}");
     }
     vp::bound("static_trees", "depth 1: all ordered lists of 1..3 distinct leaf shapes {x y:i z::i v#2 w#3::i a#2/b d#2/e#2 g#2/h:i r#2/7x}; depth 2: all ordered lists of 1..2 shapes (leaf or sub-tree {s/ t#2/ u#3/k#2/c/ p/::i n#2/4b/}) with a sub-tree x 6 representative children; depth 3" + std::string(T ? " and 4" : "") + ": chains of sub-trees with sibling leaves");
